@@ -230,6 +230,48 @@ impl<'a, 'tcx> Cx<'a, 'tcx> {
         }
     }
 
+    /// Structured view of an aggregate constant (struct / tuple / enum) through
+    /// rustc's own destructuring of the constant value.
+    fn destructure(&self, val: ConstValue, ty: Ty<'tcx>, depth: usize) -> Option<J> {
+        let tcx = self.tcx;
+        if depth > 4 {
+            return None;
+        }
+        match ty.kind() {
+            ty::Adt(..) | ty::Tuple(..) => {}
+            _ => return None,
+        }
+        let d = tcx.try_destructure_mir_constant_for_user_output(val, ty)?;
+        let mut fields = vec![];
+        for (fv, fty) in d.fields.iter() {
+            let mut fo: Vec<(&'static str, J)> = vec![("ty", J::S(ty_s(*fty)))];
+            if let Some(sub) = self.destructure(*fv, *fty, depth + 1) {
+                fo.push(("agg", sub));
+            } else {
+                self.const_value(*fv, *fty, &mut fo);
+                if let (ty::Float(_), ConstValue::Scalar(mir::interpret::Scalar::Int(si))) = (fty.kind(), fv) {
+                    let size = si.size();
+                    let bits = si.to_bits(size);
+                    if size.bytes() == 4 {
+                        fo.push(("f", J::S(format!("{:?}", f32::from_bits(bits as u32)))));
+                    } else if size.bytes() == 8 {
+                        fo.push(("f", J::S(format!("{:?}", f64::from_bits(bits as u64)))));
+                    }
+                }
+            }
+            fields.push(J::obj(fo));
+        }
+        let mut o: Vec<(&'static str, J)> = vec![("fields", J::A(fields))];
+        if let Some(v) = d.variant {
+            o.push(("vi", J::n(v.index() as i128)));
+        }
+        if let ty::Adt(adt, _) = ty.kind() {
+            o.push(("name", J::S(tcx.def_path_str(adt.did()))));
+            o.push(("is_enum", J::B(adt.is_enum())));
+        }
+        Some(J::obj(o))
+    }
+
     fn dump_alloc(
         &self,
         alloc_id: mir::interpret::AllocId,
@@ -238,6 +280,16 @@ impl<'a, 'tcx> Cx<'a, 'tcx> {
         o: &mut Vec<(&'static str, J)>,
     ) {
         let tcx = self.tcx;
+        if matches!(ty.kind(), ty::Adt(..) | ty::Tuple(..)) {
+            let val = ConstValue::Indirect {
+                alloc_id,
+                offset: rustc_abi::Size::from_bytes(off as u64),
+            };
+            if let Some(j) = self.destructure(val, ty, 0) {
+                o.push(("agg", j));
+                return;
+            }
+        }
         let mir::interpret::GlobalAlloc::Memory(a) = tcx.global_alloc(alloc_id) else {
             o.push(("alloc", J::s("non-memory")));
             return;
